@@ -20,6 +20,7 @@ fn main() {
     match (args[0].as_str(), args[1].as_str()) {
         ("rt", "replay") => rt::replay(&args[2..]),
         ("rt", "record") => rt::record(&args[2..]),
+        ("rt", "time") => rt::time_cases(&args[2..]),
         ("asyncm", "replay") => asyncm::replay(&args[2..]),
         ("net", "replay") => net::replay(&args[2..]),
         _ => {
